@@ -275,6 +275,40 @@ MUTANTS = {
         "    except ValueError:\n      float(s)\n      return True",
         "    except ValueError:\n      float(s)\n      return "
         "'e' not in s.lower()")]),
+    "m58_global_pool_axes_from_raw_argument": dict(expect=["C11"], edits=[
+        E("qkeras/qpooling.py",
+          "    super().__init__(data_format=data_format, **kwargs)\n\n"
+          "  def compute_pooling_area(self, input_shape):",
+          "    self._spatial_axes = ((2, 3) if data_format == "
+          "\"channels_first\"\n                          else (1, 2))\n"
+          "    super().__init__(data_format=data_format, **kwargs)\n\n"
+          "  def compute_pooling_area(self, input_shape):"),
+        E("qkeras/qpooling.py",
+          "      if self.data_format == \"channels_last\":\n"
+          "        x = K.sum(inputs, axis=[1, 2], keepdims=self.keepdims)\n"
+          "      else:\n"
+          "        x = K.sum(inputs, axis=[2, 3], keepdims=self.keepdims)\n",
+          "      x = K.sum(inputs, axis=list(self._spatial_axes),\n"
+          "                keepdims=self.keepdims)\n")]),
+    "m59_ternary_threshold_or_default": dict(expect=["C04"], edits=[E(
+        Q, "      if self.threshold is None:\n        thres = "
+        "self.default_threshold\n      else:\n        thres = "
+        "self.threshold\n      q = K.cast(tf.abs(x) >= thres",
+        "      thres = self.threshold or self.default_threshold\n"
+        "      q = K.cast(tf.abs(x) >= thres")]),
+    "m60_fusing_pair_single_consumer_dropped": dict(expect=["C14"], edits=[E(
+        U, '          "QConv2D", "QDepthwiseConv2D"\n      ] and is_single '
+        'and followed_by_bn',
+        '          "QConv2D", "QDepthwiseConv2D"\n      ] and '
+        'followed_by_bn')]),
+    "m61_fold_single_consumer_dropped": dict(expect=["C15"], edits=[E(
+        U, '          "Conv2D", "DepthwiseConv2D"\n      ] and is_single and '
+        'followed_by_bn',
+        '          "Conv2D", "DepthwiseConv2D"\n      ] and followed_by_bn')]),
+    "m62_stochastic_ternary_not_a_mux_select": dict(expect=["C16"], edits=[E(
+        QO + "multiplier_impl.py",
+        'if any(s in weight_quantizer.name for s in ["binary", "ternary"]):',
+        'if weight_quantizer.name in ("binary", "ternary"):')]),
 }
 
 BENIGN = {
@@ -387,4 +421,72 @@ BENIGN = {
         '    else:\n      mode = "sram"\n',
         '  if is_output_layer:\n    mode = "dram" if rd_wr_on_io else '
         '"sram"\n')]),
+    "b22_global_pool_axes_cached_after_super": dict(props=["C11"], edits=[
+        E("qkeras/qpooling.py",
+          "    super().__init__(data_format=data_format, **kwargs)\n\n"
+          "  def compute_pooling_area(self, input_shape):",
+          "    super().__init__(data_format=data_format, **kwargs)\n"
+          "    self._spatial_axes = ((1, 2) if self.data_format == "
+          "\"channels_last\"\n                          else (2, 3))\n\n"
+          "  def compute_pooling_area(self, input_shape):"),
+        E("qkeras/qpooling.py",
+          "      if self.data_format == \"channels_last\":\n"
+          "        x = K.sum(inputs, axis=[1, 2], keepdims=self.keepdims)\n"
+          "      else:\n"
+          "        x = K.sum(inputs, axis=[2, 3], keepdims=self.keepdims)\n",
+          "      x = K.sum(inputs, axis=list(self._spatial_axes),\n"
+          "                keepdims=self.keepdims)\n")]),
+    "b23_qdense_flag_cached_in_init": dict(props=["C11", "C13"], edits=[
+        E("qkeras/qlayers.py",
+          "    self.kernel_quantizer = kernel_quantizer\n    "
+          "self.bias_quantizer = bias_quantizer\n\n    "
+          "self.kernel_quantizer_internal = get_quantizer("
+          "self.kernel_quantizer)",
+          "    self.kernel_quantizer = kernel_quantizer\n    "
+          "self.bias_quantizer = bias_quantizer\n    "
+          "self._quantize_kernel = kernel_quantizer is not None\n\n    "
+          "self.kernel_quantizer_internal = get_quantizer("
+          "self.kernel_quantizer)"),
+        E("qkeras/qlayers.py",
+          "  def call(self, inputs):\n    if self.kernel_quantizer:\n"
+          "      quantized_kernel = self.kernel_quantizer_internal("
+          "self.kernel)\n    else:\n      quantized_kernel = self.kernel\n"
+          "    output = tf.keras.backend.dot(",
+          "  def call(self, inputs):\n    if self._quantize_kernel:\n"
+          "      quantized_kernel = self.kernel_quantizer_internal("
+          "self.kernel)\n    else:\n      quantized_kernel = self.kernel\n"
+          "    output = tf.keras.backend.dot(")]),
+    "b24_qactivation_config_local_var": dict(props=["C13", "C12"], edits=[E(
+        "qkeras/qlayers.py",
+        '    config = {"activation": self.activation}\n    base_config = '
+        'super(QActivation, self).get_config()',
+        '    activation = self.activation\n    config = {"activation": '
+        'activation}\n    base_config = super(QActivation, self).'
+        'get_config()')]),
+    "b25_fold_guard_inline_len": dict(props=["C15", "C12"], edits=[E(
+        U, "      is_single = len(successor_ids) == 1\n",
+        "      is_single = len(list(graph.successors(node_id))) == 1\n",
+        matches=2, which="all")]),
+    "b26_layer_indexes_as_set": dict(props=["C20"], edits=[E(
+        "qkeras/autoqkeras/autoqkeras_internal.py",
+        "    self.layer_indexes = layer_indexes\n    "
+        "self.learning_rate_optimizer = learning_rate_optimizer\n\n    "
+        "# load quantizer types",
+        "    self.layer_indexes = (set(layer_indexes)\n"
+        "                          if layer_indexes is not None else None)\n"
+        "    self.learning_rate_optimizer = learning_rate_optimizer\n\n    "
+        "# load quantizer types")]),
+    "b27_set_trainable_early_return": dict(props=["C14", "C05", "C09"],
+                                           edits=[E(
+        Q, "  def _set_trainable_parameter(self):\n    if self.alpha is "
+        "None:\n      self.alpha = \"auto_po2\"\n      self.freeze_scale "
+        "= False\n      self.symmetric = True\n",
+        "  def _set_trainable_parameter(self):\n    if self.alpha is not "
+        "None:\n      return\n    self.alpha = \"auto_po2\"\n    "
+        "self.freeze_scale = False\n    self.symmetric = True\n")]),
+    "b28_bernoulli_check_by_class_flag": dict(props=["C16", "C17", "C18"],
+                                              edits=[E(
+        QO + "multiplier_impl.py",
+        "      if weight_quantizer.mode == 4:",
+        "      if getattr(weight_quantizer, \"use_01\", False):")]),
 }
